@@ -10,3 +10,53 @@ claim('C12', 'Lean 4 theorems over a hand model of find_line + translated block 
       "--blocksz values against the default. The bs-dependent acceptance gate is outside these theorems (known findings F1, F2).",
       TB + "Modelled not verified: LineReader caches (validated by call histories incl. drops), regex/chrono (not involved), block-zero gate (known findings).",
       "DESIGN.md §6 C12, §5 Lines/Blocks")
+
+claim('C02', 'Lean 4 theorems (lines tile the file; messages partition; find_sysline / streaming loop emit each message once) over hand models of LineReader and SyslineReader; in-process differential correspondence; stdout == file-suffix oracle',
+      "Machine-checked for every parser P, every byte string, every block size >= 1: find_line is the line containing the offset, lines tile the file, messages are "
+      "contiguous from the first timestamped line to the last byte, find_sysline returns the containing message, and the streaming loop of exec_syslogprocessor emits every "
+      "message exactly once in file order. The models are tied to the real readers by differential runs (exhaustive small files at every block size; random access with warm "
+      "caches and drops; gz). The binary's stdout is compared byte for byte with the file suffix for 8 input shapes (CRLF, NUL/non-UTF-8, missing final newline, headless "
+      "prefix, multi-block lines, > 8096 bytes). The acceptance gate is modelled and tied but is bs-dependent: known findings F1, F2.",
+      TB + "Modelled not verified: regex/chrono decide which lines are timestamped (parameter P); reader caches and drop_data (validated by histories); printers (C13).",
+      "DESIGN.md §6 C02")
+
+claim('C03', 'Lean 4 theorems over source-translated window functions + hand models of binary/linear search and the streaming loop; in-process differential correspondence; -a/-b oracle on the binary',
+      "Machine-checked: every translated window decision function is inclusive at both bounds (missing bound = unbounded); for chronological text logs with messages >= 2 "
+      "bytes the binary search and the linear search return the first message with dt >= A from any message start, never err/run out of fuel, and the windowed streaming loop "
+      "emits exactly the messages with A <= dt <= B in file order ([] when none); a 1-byte-message counterexample to the unrestricted binary-search statement is proved. "
+      "Accounting/event records: membership iff non-null and inside the inclusive window. Tie: translated functions are regenerated every run; the search models run against the "
+      "real SyslineReader (plain and gz) on sorted logs with duplicate instants; the binary is run with windows on, next to and between instants.",
+      TB + "Assumes chronological text logs (binary search); regex/chrono attribute instants (C04); journal windows are C09.",
+      "DESIGN.md §6 C03")
+
+claim('C01', 'Lean 4 theorems on the coordinator transition system and the k-way merge specification; event-trace replay of the real binary under seeded delay plans; reference-merge oracle',
+      "Machine-checked: for every schedule the coordinator prints merge(scripts); merge preserves each source's order, always emits an earliest head with lower PathIds "
+      "strictly later, is sorted (lexicographically by instant, PathId) when every source is, and puts equal instants in PathId order. Tie: cfg(s4_verif) traces of "
+      "processing_loop under delay plans are replayed through the model's step function; stdout of tie-heavy multi-source runs in shuffled argument order is compared with "
+      "the reference merge.",
+      TB + "Assumes Iterator::min_by keeps the first minimum and BTreeMap iterates in key order; directory walk order is C15.",
+      "DESIGN.md §6 C01")
+
+claim('C06', 'Lean 4 theorems on the worker/bounded-channel/coordinator transition system (confluence, no early break, deadlock-freedom, iteration bound); event-trace replay under seeded delay plans; stdout-equality oracle',
+      "Machine-checked on the protocol model with the channel capacity read from the source: every finished run, whatever the interleaving, has printed merge(scripts); "
+      "the early-break path is unreachable when every worker sends FileInfo first (and a counter-model shows that discipline is needed); some step is always enabled "
+      "(no deadlock) for capacity >= 1; iterations are bounded. Tie: every event of real traces taken under seeded send/poll delays must be an enabled model transition and "
+      "the model's final output must equal the real one; stdout must be byte-identical across delay plans.",
+      TB + "Runtime behaviour the model cannot exhibit: OS scheduling fairness, crossbeam internals (assumed FIFO per channel, select returns a ready channel).",
+      "DESIGN.md §6 C06")
+
+claim('C08', 'Lean 4 theorems on the ordered-map insert/drain model with key shape and window comparisons regenerated from the source; printed-order correspondence and field oracle on synthesised wtmp files',
+      "Machine-checked: with the map key regenerated from the source (time value, file offset) the printed order is the stable sort by time value of the non-null, "
+      "in-window records - each exactly once, equal times in file order, window inclusive; a proved counter-model shows records are lost when the key lacks the offset (the "
+      "defect that was repaired by commit 6df5067a). Tie: the key shape, prefilter operators and null test are re-read every run; the binary is run on synthesised wtmp files "
+      "(ties, nulls, disorder, every container, windows) and its printed order compared with the model; each line must show the record's own fields. Known finding F12 "
+      "(stray NUL after each record).",
+      TB + "Modelled not verified: FixedStruct::as_bytes rendering and layout detection (tested on the Linux x86_64 utmp layout only).",
+      "DESIGN.md §6 C08")
+
+claim('C10', 'Lean 4 theorems on the ordered-map insert/drain model with key shape and ts_pass_filters regenerated from the source; printed-order correspondence against an independent evtx-crate dump',
+      "Machine-checked: with key (timestamp, enumeration index) the output is the stable sort by creation time of the in-window records, each exactly once, ties in "
+      "enumeration order, window inclusive; counter-model for a key without the index. Tie: key/insert/pop_first/filter shapes re-read from evtxreader.rs every run; the binary "
+      "is run on the shipped sample (out of order) and on copies with patched header timestamps (ties, disorder), plain and in every container, against an independent dump.",
+      TB + "The evtx crate's parsing is trusted (shared by s4 and the dump); XML rendering not modelled.",
+      "DESIGN.md §6 C10")
